@@ -21,7 +21,7 @@ def sweep(ck):
     runs = 0
     worst_phase = 0.0
     for it in range(4 * n):
-        N = ck.rng.choice([1500, 3000]); fs = ck.rng.choice([1.0, 10.0])
+        N = 1500 if it < 4 else ck.rng.choice([1500, 3000]); fs = ck.rng.choice([1.0, 10.0])      # N <= 1500: the CUDA simulator is included
         g = np.random.default_rng(ck.rng.randint(0, 2 ** 31))
         x = g.standard_normal(N)
         order = [-1, 0, 1, 2][it % 4]
